@@ -23,6 +23,8 @@ Section JoinProofs.
   Variable label_id : list xlabel -> Z.
   Variable vox_c : Z -> list ijk.
   Variable vox_id : list ijk -> Z.
+  Variable scale10 : Z -> Z -> Z.
+  Hypothesis scale10_0 : forall v, scale10 v 0 = v.        (* x * 10 ** 0 = x *)
   (* interning by content: every content has the id it was given *)
   Hypothesis name_inv : forall i, name_id (Some (name_str i)) = i.
   Hypothesis meta_inv : forall i, meta_id (meta_c i) = i.
@@ -30,7 +32,7 @@ Section JoinProofs.
   Hypothesis vox_inv : forall i, vox_id (vox_c i) = i.
 
   Notation xenc := (xenc name_str meta_c label_c vox_c).
-  Notation xdec := (xdec name_id meta_id label_id vox_id).
+  Notation xdec := (xdec name_id meta_id label_id vox_id scale10).
 
   (* from_index_mapping of what the reader makes of to_mapping's output *)
   Definition xrt (a : axis) : res axis :=
@@ -124,7 +126,7 @@ Section JoinProofs.
 
   (* ---------------------------------------------------------- SeriesAxis *)
   Lemma join_series a : xrt (ASer a) = Ok (ASer a).
-  Proof. destruct a. reflexivity. Qed.
+  Proof. destruct a. unfold xrt. cbn. now rewrite !scale10_0. Qed.
 
   (* ---------------------------------------------------------- ParcelsAxis *)
   Lemma dict_set_new d k v : ~ In k (keys d) -> dict_set d k v = d ++ [(k, v)].
@@ -355,6 +357,8 @@ Section EndToEnd.
   Hypothesis meta_inv : forall i, meta_id (meta_c i) = i.
   Hypothesis label_inv : forall i, label_id (label_c i) = i.
   Hypothesis vox_inv : forall i, vox_id (vox_c i) = i.
+  Variable scale10 : Z -> Z -> Z.
+  Hypothesis scale10_0 : forall v, scale10 v 0 = v.
   Variable bs_valid : Z -> bool.
   Variable show_ints : list Z -> str.
   Variable show_vox : list ijk -> str.
@@ -369,7 +373,7 @@ Section EndToEnd.
     show_matrix m <> [] /\ loadtxt_floats (strip (show_matrix m)) = Some m.
 
   Notation xenc := (xenc name_str meta_c label_c vox_c).
-  Notation xdec := (xdec name_id meta_id label_id vox_id).
+  Notation xdec := (xdec name_id meta_id label_id vox_id scale10).
   Notation child_events := (child_events show_ints show_vox show_matrix).
   Notation children_events := (children_events show_ints show_vox show_matrix).
   Notation mim_events := (mim_events show_ints show_vox show_matrix).
@@ -468,19 +472,19 @@ Section EndToEnd.
     exists m a', xenc a = Ok m /\ xdec (norm_payload m) = Ok a' /\ axis_eqb a' a = true.
   Proof.
     intros [Hw Hg]. destruct a as [x|x|x|x|x].
-    - destruct Hw as [Hw Hne]. destruct (join_bm name_str name_id meta_c meta_id label_c label_id vox_c vox_id x Hw Hne) as (a' & Hrt & _ & _ & Heq).
+    - destruct Hw as [Hw Hne]. destruct (join_bm name_str name_id meta_c meta_id label_c label_id vox_c vox_id scale10 x Hw Hne) as (a' & Hrt & _ & _ & Heq).
       unfold xrt in Hrt. destruct (xenc (ABm x)) as [m|] eqn:E; [|discriminate]. exists m, (ABm a'). auto.
-    - destruct Hg as (Hs & _). pose proof (join_parcels name_str name_id meta_c meta_id label_c label_id vox_c vox_id vox_inv x Hw Hs) as Hrt.
+    - destruct Hg as (Hs & _). pose proof (join_parcels name_str name_id meta_c meta_id label_c label_id vox_c vox_id scale10 vox_inv x Hw Hs) as Hrt.
       unfold xrt in Hrt. destruct (xenc (APar x)) as [m|] eqn:E; [|discriminate]. exists m, (APar x). split; [reflexivity|]. split; [exact Hrt|].
       now apply (axis_eqb_refl (APar x)).
-    - pose proof (join_scalar name_str name_id meta_c meta_id label_c label_id vox_c vox_id name_inv meta_inv x Hw Hg) as Hrt.
+    - pose proof (join_scalar name_str name_id meta_c meta_id label_c label_id vox_c vox_id scale10 name_inv meta_inv x Hw Hg) as Hrt.
       unfold xrt in Hrt. destruct (xenc (ASc x)) as [m|] eqn:E; [|discriminate]. exists m, (ASc x). split; [reflexivity|]. split; [exact Hrt|].
       now apply (axis_eqb_refl (ASc x)).
-    - destruct Hg as [Hg _]. pose proof (join_label name_str name_id meta_c meta_id label_c label_id vox_c vox_id name_inv meta_inv label_inv x Hw Hg) as Hrt.
+    - destruct Hg as [Hg _]. pose proof (join_label name_str name_id meta_c meta_id label_c label_id vox_c vox_id scale10 name_inv meta_inv label_inv x Hw Hg) as Hrt.
       unfold xrt in Hrt. destruct (xenc (ALab x)) as [m|] eqn:E; [|discriminate]. exists m, (ALab x). split; [reflexivity|]. split; [exact Hrt|].
       now apply (axis_eqb_refl (ALab x)).
     - exists (mt_series, mkXS (Some (se_size x)) (Some 0) (Some (se_start x)) (Some (se_step x)) (Some (se_unit x)), []), (ASer x).
-      split; [reflexivity|]. split; [destruct x; reflexivity|]. now apply (axis_eqb_refl (ASer x)).
+      split; [reflexivity|]. split; [destruct x; cbn; now rewrite !scale10_0|]. now apply (axis_eqb_refl (ASer x)).
   Qed.
 
   Lemma mims_events_ok l : Forall (fun m => exists e, mim_events m = XOk e) l -> exists e, mims_events l = XOk e.
